@@ -23,7 +23,8 @@ FUNCTIONS = [
 BOUNDS = {
     "quick": "1..3 dependencies in 1..2 data kinds, <=3 chunks per dependency, <=2 rows per chunk (<=3 rows per "
              "kind); chunk boundaries, row times and per-dependency run ends symbolic on Z",
-    "thorough": "up to 4 dependencies / 3 kinds, <=3 chunks per dependency, <=4 rows per kind",
+    "thorough": "up to 3 dependencies / 3 kinds, <=3 chunks per dependency, <=4 rows per kind (a 4-dependency and a "
+                "3-dependency 2+2+3-chunk configuration explore for hours and were dropped)",
 }
 ASSUMPTIONS = [
     "all time values in [0, 2^62)",
@@ -269,11 +270,12 @@ def _grid(tier):
     # three dependencies, two kinds
     tri = [([1, 1], [2], [1]), ([1], [1], [1, 1]), ([2], [1, 1], [1, 1])]
     if tier != "quick":
-        tri += [([1, 1], [1, 1], [1, 1, 1]), ([2, 1], [1, 2], [1, 1])]
+        # ([1, 1], [1, 1], [1, 1, 1]) and the four-dependency configuration were dropped: each explores for hours
+        # (the thorough run of this property ran past 2.4 h on one of them) - stated as outside the bound
+        tri += [([2, 1], [1, 2], [1, 1])]
     for la, lb, lc in tri:
         g.append([["a", "k", la], ["b", "k", lb], ["c", "kc", lc]])
     if tier != "quick":
-        g.append([["a", "k", [1, 1]], ["b", "k", [2]], ["c", "kc", [1]], ["d", "kd", [1, 1]]])
         g.append([["a", "ka", [1]], ["b", "kb", [1, 1]], ["c", "kc", [1]]])
     return [dict(deps=d) for d in g]
 
